@@ -41,6 +41,12 @@ def make(seed):
     return st
 
 
+MODS = [("set", 1, "A"), ("set", 5, "BC"), ("iadd", "D")]
+SEARCHES = [("find", "A", -2, None), ("find", "", -9, None), ("find", "", 9, 9), ("find", "A", -5, -1),
+            ("rfind", "A", -3, None), ("find", "D", 2, None), ("rfind", "B", -4, -1), ("find", "A", 1, -1),
+            ("rfind", "", 9, None), ("find", "BC", -3, 7)]
+
+
 def events(st):
     n = len(st.model)
     evs = []
@@ -60,10 +66,23 @@ def events(st):
         evs.append(("rfind", p.decode(), 0, None))
     evs.append(("find", "A", 1, 3))
     evs.append(("rfind", "B", 1, 6))
+    # a search with unusual bounds as the FIRST operation after a modification (the state probes below search
+    # from 0 and would otherwise always repair the search cache before such a search runs)
+    for mi in range(len(MODS)):
+        if MODS[mi][0] == "iadd" and n + len(MODS[mi][1]) > CAP:
+            continue
+        for si in range(len(SEARCHES)):
+            evs.append(("mod+search", mi, si))
     return evs
 
 
 def apply(st, ev):
+    if ev[0] == "mod+search":
+        probs = apply(st, MODS[ev[1]])
+        sr = SEARCHES[ev[2]]
+        for name, what in apply(st, sr):
+            probs.append((name + ":first-after-modification:%s" % _bounds_class(sr[2], sr[3]), what))
+        return probs
     probs = []
     kind = ev[0]
     s, m = st.impl, st.model
@@ -98,6 +117,10 @@ def apply(st, ev):
     except Exception as e:
         probs.append(("%s:raise:%s" % (kind, type(e).__name__), "event %r raised %r on content %r" % (ev, e, bytes(m))))
     return probs
+
+
+def _bounds_class(a, e):
+    return "start%s,end%s" % ("<0" if a < 0 else "=0" if a == 0 else ">0", "=None" if e is None else "<0" if e < 0 else ">=0")
 
 
 def _padded(m, end):
